@@ -51,7 +51,14 @@ const PreludeJS = `(function (global) {
     if (inChain(ErrorProto, x)) {
       var c = dataLookup(x, "constructor"), n;
       if (c !== null && (typeof c === "function" || typeof c === "object")) n = dataLookup(c, "name");
-      return "Error:" + (typeof n === "string" ? n : "?");
+      // a short message without blanks is one chosen by the program (the engine's own messages are sentences and differ
+      // between implementations): it is part of the payload
+      var m = dataLookup(x, "message"), ms = "";
+      if (typeof m === "string" && m.length > 0 && m.length <= 24) {
+        ms = "(" + m + ")";
+        for (var mi = 0; mi < m.length; mi++) if (m[mi] < "!" || m[mi] > "~") { ms = ""; break; }
+      }
+      return "Error:" + (typeof n === "string" ? n : "?") + ms;
     }
     if (inChain(GenProto, x)) return "generator";
     if (inChain(PromiseProto, x)) return "promise";
